@@ -49,7 +49,7 @@ type wVA struct {
 }
 
 type wNode struct {
-	ID                                    int64
+	ID                                   int64
 	Managed, Fin, Del, Taint, Lbl, Ready bool
 }
 
